@@ -131,6 +131,9 @@ func main() {
 			case "funcn": // ext_k19.go: funcm over an abstract number type (float64 -> `F`, `ops : NumOps F`)
 				text, err = genFuncN(p, e)
 				monadic[e.module] = true
+			case "funce": // wp kfinish (ext_kfinish.go): counted-loop function whose calls are fields of an environment structure
+				text, err = kfinishGenFuncE(p, e)
+				monadic[e.module] = true
 			default:
 				err = fmt.Errorf("unknown kind %s", e.kind)
 			}
